@@ -39,6 +39,16 @@ CLAIMED = {
    text="For 2-3 script inputs and 2-3 mint/burn blocks whose txid byte, output index (u32) and policy byte are symbolic - every relative order - the real compile_tx_body + compile_redeemers are executed from MIR and the emitted (tag, index) -> data map is shown equal to the map obtained by ranking each item among the ledger-sorted inputs / policies: one redeemer per guarded item, at the index of that item. Bounded: <= 3 items per kind, integer redeemer data.",
    note="mirsym + std/pallas models (BTreeMap as ordered association list, sort with forked comparisons). Withdrawal redeemers and multi-UTxO inputs: see known findings / DESIGN.",
    design="§3 C08"),
+ "C03": dict(
+   technique="symbolic execution of the MIR of query canonicalisation, search-space narrowing and coin selection (mirsym -> z3), async state machines driven against a store model with symbolic contents, every candidate order",
+   text="For stores of 2 (quick) / 3 (thorough) UTxOs whose address, lovelace, token presence and token amount are symbolic, and every query shape reachable from the language (address none/A/B x ref none/own/dangling x min_amount over lovelace and one token x single/many x input/collateral), the real narrowing + selection code is executed from MIR on every path and every candidate order; z3 shows that each bound UTxO satisfies every stated constraint (soundness) and that an empty result implies no covering candidate exists (completeness).",
+   note="UtxoStore is a contract model; sort_candidates (floats) is replaced by all permutations; amounts below 2^16 (quick) / 2^40 (thorough); window of 50 not binding.",
+   design="§3 C03"),
+ "C04": dict(
+   technique="symbolic execution of the MIR of inputs::resolve (async) and compile_inputs (mirsym -> z3) on templates with overlapping input blocks",
+   text="For templates with 2-3 input blocks whose queries overlap (same party, ref into the party's UTxOs, collateral) over a store with symbolic contents, the real resolve (one selector, ignore set, apply_inputs) is executed from MIR on every path and candidate order: z3-checked obligations show the bound sets pairwise disjoint, every resolved block non-empty, and the flattened input list of the real compile_inputs to contain each selected UTxO exactly once.",
+   note="same store model and bounds as C03; block names concrete.",
+   design="§3 C04"),
 }
 
 NA = {
